@@ -98,5 +98,24 @@ pub fn corpus() -> Vec<(&'static str, Prog, STy, STy, bool)> {
     add("dead-code-after-return", vec![main2(I, I, blk(
         vec![let_("x2", I, bin(Op::Add, v("x0"), v("x1"))), S::Do(ret(v("x2"))), S::Do(set("x2", n(0)))],
         Some(v("x2"))))], I, I, true);
+    // functions that return nothing (`Return(None)`, a call without a `to`): called as statements, before / inside a loop,
+    // from a function that returns a value, recursively; arguments are passed by value, so the caller's variables keep theirs
+    let ucall = |g: &str, args: Vec<E>| S::Do(E::XCall(g.into(), args, "unit".into()));
+    let ufunc = |name: &str, params: &[(&str, STy)], body: Blk| { let mut f = func(name, params, I, body); f.xret = Some("unit".into()); f };
+    add("unit-function-called", vec![
+        ufunc("u0", &[("x0", I), ("x1", I)], blk(vec![S::Do(set("x0", bin(Op::Add, v("x0"), v("x1")))), S::Do(cset(Op::Mul, "x1", n(2)))], None)),
+        main2(I, I, blk(
+            vec![ucall("u0", vec![v("x0"), v("x1")]),
+                 let_("x2", I, n(0)),
+                 S::Do(whl(bin(Op::Lt, v("x2"), n(3)), blk(vec![ucall("u0", vec![v("x2"), v("x0")]), S::Do(cset(Op::Add, "x2", n(1)))], None)))],
+            Some(bin(Op::Sub, bin(Op::Mul, v("x0"), n(3)), bin(Op::Add, v("x1"), v("x2")))))),
+    ], I, I, true);
+    add("unit-function-between-value-calls", vec![
+        ufunc("u0", &[("x0", I)], blk(vec![S::Do(if1(bin(Op::Gt, v("x0"), n(0)), blk(vec![ucall("u0", vec![bin(Op::Sub, v("x0"), n(1))])], None)))], None)),
+        func("h0", &[("x0", I), ("x1", I)], I, blk(vec![ucall("u0", vec![n(2)])], Some(bin(Op::Sub, v("x0"), v("x1"))))),
+        main2(I, I, blk(
+            vec![let_("x2", I, call("h0", vec![v("x0"), v("x1")], I)), ucall("u0", vec![n(3)])],
+            Some(bin(Op::Add, v("x2"), call("h0", vec![v("x1"), v("x2")], I))))),
+    ], I, I, true);
     out
 }
